@@ -207,6 +207,11 @@ fn g_formats_random(src: &mut Src, obs: &mut Obs) -> CaseResult {
 fn g_alg_sweep(src: &mut Src, obs: &mut Obs) -> CaseResult {
     let alg = src.word() as i64 - 70_000;
     let shape = src.below(4);
+    if alg > i32::MAX as i64 {
+        // outside the domain of this generator (only reachable through the raw-word fuzz target)
+        obs.excluded = true;
+        return Ok(());
+    }
     let e = |a: i64, t: &str| Value::Map(vec![ks("alg", Value::int(a)), ks("type", Value::text(t))]);
     let list = match shape {
         0 => Value::Array(vec![e(alg, "public-key")]),
